@@ -179,6 +179,14 @@ func (env *Zlisp) compareArray(a *SexpArray, b Sexp) (int, error) {
 	// forever, until the Go stack overflows and takes the process down.
 	// (some callers, like positional access into a hash, compare keys
 	// without an interpreter at hand: env can be nil here)
+	if env == nil {
+		// the arrays know the interpreter they belong to
+		if a.Env != nil {
+			env = a.Env
+		} else {
+			env = ba.Env
+		}
+	}
 	if env != nil {
 		env.compareDepth++
 		defer func() { env.compareDepth-- }()
